@@ -46,8 +46,9 @@ POISON = _Poison()
 class Interp:
     def __init__(self, leaf: Optional[Callable[[ast.AST, dict], object]] = None,
                  lookup: Optional[Callable[[ast.Call], Optional[ast.FunctionDef]]] = None, max_steps: int = 20000, tensors: bool = False,
-                 lenient: bool = False):
+                 lenient: bool = False, effects=()):
         self.user_leaf = leaf
+        self.effects = tuple(effects)  # names of calls whose expression statements are evaluated (through the leaf callback), e.g. torch.save
         # lenient: an assignment whose value is outside the fragment binds its targets to POISON (any later use of them is outside
         # the fragment); a test / loop that cannot be evaluated stops the walk with `Stopped`, keeping the environment reached so far
         self.lenient = lenient
@@ -262,6 +263,8 @@ class Interp:
             elif isinstance(st, ast.Expr):
                 if isinstance(st.value, ast.Call) and self.lookup is not None and self.lookup(st.value) is not None:
                     self.call(self.lookup(st.value), st.value, env)
+                elif isinstance(st.value, ast.Call) and call_name(st.value) in self.effects:
+                    self.eval(st.value, env)
             elif isinstance(st, ast.Pass):
                 return
             else:
